@@ -23,7 +23,12 @@ Templates == <<
    [raw |-> <<"k","(",NL,SP,"$","A",",",NL,SP,SP,SP,"$","A",")">>,
     items |-> Lits(<<"k","(",NL,SP>>) \o <<V(A, 2)>> \o Lits(<<",",NL,SP,SP,SP>>) \o <<V(A, 2)>> \o Lits(<<")">>)],
    [raw |-> <<"g","(","$","A",")">>, items |-> Lits(<<"g","(">>) \o <<V(A, 2)>> \o Lits(<<")">>)],
-   [raw |-> <<"$","B","$","A">>, items |-> <<V(<<"B">>, 2), V(A, 2)>>]
+   [raw |-> <<"$","B","$","A">>, items |-> <<V(<<"B">>, 2), V(A, 2)>>],
+   \* a sigil that starts no meta variable is literal text; the slot after it sits on an indented line
+   [raw |-> <<"$","(",NL,SP,SP,"$","A",NL,")">>,
+    items |-> Lits(<<"$","(",NL,SP,SP>>) \o <<V(A, 2)>> \o Lits(<<NL,")">>)],
+   [raw |-> <<"$","1",".","$","(",NL,SP,"$","A",",",NL,SP,SP,SP,"$","A",")">>,
+    items |-> Lits(<<"$","1",".","$","(",NL,SP>>) \o <<V(A, 2)>> \o Lits(<<",",NL,SP,SP,SP>>) \o <<V(A, 2)>> \o Lits(<<")">>)]
 >>
 
 Init == /\ site \in 0..MaxSite /\ own \in BOOLEAN /\ tpl \in 1..Len(Templates)
